@@ -20,7 +20,8 @@ CONSTANTS BUF,       \* size of the internal buffer in bytes (multiple of 8; the
           MaxBits,   \* stop when that many bits have been written
           BitsOps,   \* counts offered to WriteBits
           ArrOps,    \* bit counts offered to WriteArray
-          FailFlush  \* set of flush numbers (1-based) at which the sink fails (the code panics)
+          FailFlush, \* set of flush numbers (1-based) at which the sink fails (the code panics)
+          CloseImpl  \* "asis": a failed Close restores the accumulator fields but not `written` (F19); "fixed": all of them
 
 X == -1
 ZeroW == [i \in 1..64 |-> 0]
@@ -170,9 +171,11 @@ CloseOp ==
           THEN /\ closed' = TRUE
                /\ cur' = s3.cur /\ avail' = 0 /\ pos' = 0 /\ buf' = <<>> /\ written' = s3.written - 64 /\ sink' = s3.sink
                /\ flushes' = s3.flushes /\ UNCHANGED <<n, status>>
-          ELSE \* the error is returned, the fields are restored for a later attempt
+          ELSE \* the error is returned, the fields are restored for a later attempt; as found the padding stays subtracted
+               \* from `written`, so Written() is short by the padding after the failed attempt and by twice that after a retry
                /\ flushes' = s3.flushes
-               /\ UNCHANGED <<cur, avail, pos, buf, written, sink, closed, n, status>>
+               /\ written' = IF CloseImpl = "asis" THEN s2.written ELSE written
+               /\ UNCHANGED <<cur, avail, pos, buf, sink, closed, n, status>>
 
 Done == (closed \/ status = "panic" \/ n >= MaxBits) /\ UNCHANGED vars
 
